@@ -267,9 +267,9 @@ class boo_3d:
                          np.conj(cal_qlmQlm[n, cnlist])).sum(axis=1)
                 sijdown = norm_qlmQlm[n, i] * norm_qlmQlm[n, cnlist]
                 sij[i, :Neighborlist[i, 0]] = sijup.real / sijdown
+                sijresults[i, 1] = (sij[i, :Neighborlist[i, 0]] > c).sum()
 
             sijresults[:, 0] = np.arange(self.nparticle) + 1
-            sijresults[:, 1] = (np.where(sij > c, 1, 0)).sum(axis=1)
             sijresults[:, 2] = Neighborlist[:, 0]
             results.append(sijresults)
             resultssij.append(np.column_stack(
